@@ -82,6 +82,8 @@ type c12Case struct {
 	DoFails   bool   `json:"doFails"`
 	FailAfter int    `json:"failAfter"` // -1 none
 	TruncAt   int    `json:"truncAt"`   // -1 none (body cut, clean EOF)
+	NilCtx    bool   `json:"nilCtx,omitempty"` // the call passes a nil context, as helpers generated with context_type "-" do
+	UseGet    bool   `json:"useGet,omitempty"` // NewClientUsingGet instead of NewClient
 }
 
 var c12Bodies = [][2]string{
@@ -163,6 +165,8 @@ func runC12(c *Ctx) {
 		case 3:
 			cs.TruncAt = r.Intn(len(bk[1]) + 1)
 		}
+		cs.NilCtx = r.Intn(4) == 0
+		cs.UseGet = r.Intn(4) == 0
 		c12Run(c, cs)
 	}
 }
@@ -183,16 +187,23 @@ func c12Run(c *Ctx, cs c12Case) {
 	body := c12MkBody(cs)
 	doer := &c12Doer{fail: cs.DoFails, resp: &http.Response{StatusCode: cs.Status, Body: body}}
 	cl := graphql.NewClient("http://h.example/q", doer)
+	if cs.UseGet {
+		cl = graphql.NewClientUsingGet("http://h.example/q", doer)
+	}
+	var ctx context.Context = context.Background()
+	if cs.NilCtx {
+		ctx = nil
+	}
 	data := &c12Data{A: -1}
 	resp := &graphql.Response{Data: data}
 	var err error
 	panicked := any(nil)
 	func() {
 		defer func() { panicked = recover() }()
-		err = cl.MakeRequest(context.Background(), &graphql.Request{Query: "query Q { a }", OpName: "Q"}, resp)
+		err = cl.MakeRequest(ctx, &graphql.Request{Query: "query Q { a }", OpName: "Q"}, resp)
 	}()
 	if panicked != nil {
-		fail("violation", "panic", fmt.Sprintf("MakeRequest panicked: %v", panicked), nil, nil)
+		fail("violation", "panic", fmt.Sprintf("MakeRequest (nil context: %v, GET: %v) panicked: %v", cs.NilCtx, cs.UseGet, panicked), nil, nil)
 		return
 	}
 
